@@ -13,7 +13,7 @@ CONSTANTS MaxDepth,
 
 Wrapper   == {"lfb", "ploads", "cloads"}          \* torch.storage._load_from_bytes, pickle.loads, _pickle.loads
 Container == {"bare", "legacy", "zip"}
-Inner     == {"allowed", "sink", "dangerous", "mlonly", "sinkinst", "dotted", "cross"}   \* cross: the MODULE of one addition with the NAME of another (verif_sink / loads): the pair was never added   \* dotted: a protocol-4 qualified name whose FIRST component is allow-listed (collections / OrderedDict.fromkeys): the pair (module, name) is not   \* sinkinst: hand-assembled protocol-0 INST payload    \* mlonly: standard-library classes the static check rates LIKELY_SAFE
+Inner     == {"allowed", "sink", "dangerous", "mlonly", "sinkinst", "dotted", "cross", "oddname"}   \* oddname: an allow-listed MODULE with a name no pickler writes but the GLOBAL opcodes may carry (braces, blanks, non-ASCII): not allow-listed, so refused - with the unsafe-file error   \* cross: the MODULE of one addition with the NAME of another (verif_sink / loads): the pair was never added   \* dotted: a protocol-4 qualified name whose FIRST component is allow-listed (collections / OrderedDict.fromkeys): the pair (module, name) is not   \* sinkinst: hand-assembled protocol-0 INST payload    \* mlonly: standard-library classes the static check rates LIKELY_SAFE
 Entry     == {"load", "loads", "cload", "cloads"}
 AddSet    == {"none", "loaders", "loaders+other"}
 \* what happened in the same activation before the probed load: nothing, or a load that named an allow-listed global of a
